@@ -190,11 +190,17 @@ impl LsmVerifier {
                 let setsum = Setsum::from_hexdigest(added)
                     .ok_or_else(|| corruption(format!("manifest added has bad digest: {added}")))?;
                 computed_discard -= setsum;
+                if !first {
+                    self.verify_contents(setsum)?;
+                }
             }
             for rmed in edit.rmed() {
                 let setsum = Setsum::from_hexdigest(rmed)
                     .ok_or_else(|| corruption(format!("manifest rmed has bad digest: {rmed}")))?;
                 computed_discard += setsum;
+                if !first {
+                    self.verify_contents(setsum)?;
+                }
                 // An edit that removes and adds the same file (a compaction that reproduced one of
                 // its inputs) leaves that file in place; it is not trash.
                 if !edit.added().any(|added| added == rmed) {
@@ -321,6 +327,25 @@ impl LsmVerifier {
                     "computed_discard^-1",
                     (Setsum::default() - computed_discard).hexdigest(),
                 ));
+        }
+        Ok(())
+    }
+
+    /// The digests in the manifest only balance against each other.  That the file a digest names
+    /// really holds the data the digest stands for is checked here, by recomputing the setsum from
+    /// the entries stored in the file.
+    fn verify_contents(&self, setsum: Setsum) -> Result<(), SError> {
+        let mut cursor = self.get_cursor(setsum)?;
+        cursor.seek_to_first()?;
+        cursor.next()?;
+        let mut acc = sst::Setsum::default();
+        while let Some(kvr) = cursor.key_value() {
+            acc.insert(kvr);
+            cursor.next()?;
+        }
+        if acc.into_inner() != setsum {
+            return Err(corruption("sst contents do not match the setsum that names it")
+                .with_debug_field("setsum", setsum.hexdigest()));
         }
         Ok(())
     }
